@@ -79,10 +79,17 @@ def rule_BD2(rep, prog):
             rep.saw(fn)
             idx = l.d["ptr"]["vidx"][0]
             ii = fn.inst(idx)
+            # a subscript that reaches the table through a sign extension (the input byte read as `char`) may be negative: a signed upper-bound test alone lets it through
+            signed_idx = False
             while ii is not None and ii.op in ("zext", "sext", "trunc"):
+                if ii.op == "sext":
+                    signed_idx = True
+                elif ii.op == "zext":
+                    signed_idx = False
                 ii = fn.inst(ii.ops[0])
             ok = False
             why = ""
+            lower = False
             if ii is not None and ii.op == "and" and ii.ops[1][0] == "c" and g is not None and ii.ops[1][1] < g["len"]:
                 ok, why = True, "masked with %#x" % ii.ops[1][1]
             else:
@@ -95,7 +102,20 @@ def rule_BD2(rep, prog):
                         if other[0] == "c" and g is not None:
                             bound_ok = other[1] <= g["len"]
                         if fn.block_dominates(t.block.id, l.block.id) and t.block.id != l.block.id and bound_ok:
+                            if other[0] == "c" and other[1] == 0 and t.d["pred"] in ("slt", "sge", "sgt", "sle"):
+                                lower = True
+                                continue
+                            if signed_idx and t.d["pred"] in ("sge", "slt", "sgt", "sle"):
+                                why = why or "signed-upper-bound-only"
+                                continue
                             ok, why = True, "guarded by %s %s" % (t.d["pred"], other[1] if other[0] == "c" else "size")
+                if not ok and why == "signed-upper-bound-only" and lower:
+                    ok, why = True, "guarded by signed range test with lower bound 0"
+                if not ok and why == "signed-upper-bound-only":
+                    rep.violation(rid, l.loc, fn.name, "negative-table-subscript:%s" % fn.name,
+                                  "%s indexes a decode table with a sign-extended input byte that is only tested against the table size with a signed comparison: an input "
+                                  "byte >= 0x80 becomes a negative subscript and reads before the table instead of being rejected as an invalid character" % fn.name)
+                    continue
             rep.require(rid, ok, l.loc, fn.name, "unbounded-table-subscript:%s" % fn.name,
                         "%s indexes a codec table with a value that is neither masked below the table length nor range-checked" % fn.name,
                         sample={"fn": fn.name, "at": l.loc, "bound": why})
@@ -323,50 +343,70 @@ def rule_BD3b(rep, prog):
 
 
 def rule_FR7(rep, prog):
-    rid = rep.rule("C20-FR7", "fragmentation independence of BOM handling: a code unit is treated as a byte-order mark (skipped / rejected) only when the region "
-                   "offset is 0 (the absolute start of the data), never merely at the start of a region", floor=2)
-    fn = prog.fn("___dispatch_transform_from_utf16_block_invoke")
-    rep.saw(fn)
-    boms = [i for i in fn.all_insts() if i.op == "icmp" and i.d["pred"] in ("eq", "ne") and i.ops[1][0] == "c" and i.ops[1][1] in (0xfeff, 0xfffe)]
-    if not boms:
-        rep.unknown(rid, "no BOM comparison found in the UTF-16 decoder")
-    # `offset` is the third parameter of the applier block (region, offset, buffer, size) after the block literal itself
-    def is_offset_zero(ii):
-        if ii.op != "icmp" or ii.d["pred"] not in ("eq", "ne"):
-            return None
-        from .C13 import linform
+    from .C13 import linform
+    rid = rep.rule("C20-FR7", "fragmentation independence of BOM handling: a code unit is treated as a byte-order mark (skipped / rejected) only at the absolute start of the "
+                   "data - the UTF-16 decoder requires the region offset to be 0, the UTF-8 reader of the UTF-16 encoder compares the absolute position (region offset + "
+                   "index in the region) - never merely at a position within a region", floor=3)
+    # (applier block, BOM constants, constant the bare offset must be compared with / None = any constant but the compared value must contain the offset)
+    for fname, consts_, zero_only in (("___dispatch_transform_from_utf16_block_invoke", (0xfeff, 0xfffe), True),
+                                      ("___dispatch_transform_to_utf16_block_invoke", (0xfeff,), False)):
+        fn = prog.fn(fname)
+        rep.saw(fn)
+        boms = [i for i in fn.all_insts() if i.op == "icmp" and i.d["pred"] in ("eq", "ne") and i.ops[1][0] == "c" and i.ops[1][1] in consts_
+                and (zero_only or i.d.get("inl") is None and not _is_const_select(fn, i.ops[0]))]
+        if not boms:
+            rep.unknown(rid, "no BOM comparison found in %s" % fname)
+            continue
+        # `offset` is the third parameter of the applier block (region, offset, buffer, size) after the block literal itself
         def is_offset(a):
             if tuple(a[:2]) == ("a", 2):
                 return True
             ph = fn.inst(a)
             # the region offset advanced by the bytes the previous region already consumed (offset, or offset + skip on the skip-applied edge)
             return ph is not None and ph.op == "phi" and all(linform(fn, v).get(("a", 2)) == 1 and all(c > 0 for c in linform(fn, v).values()) for v, frm in ph.ops)
-        for a, b in ((ii.ops[0], ii.ops[1]), (ii.ops[1], ii.ops[0])):
-            if b[0] == "c" and b[1] == 0 and is_offset(a):
-                return ii.d["pred"] == "eq"
-        return None
-    brs = [i for i in fn.all_insts() if i.op == "br" and len(i.d.get("succs", [])) == 2]
-    for t in boms:
-        edges = 0
-        anchored = True
-        for br in brs:
-            for truth in (True, False):
-                cx = paths.PathCtx(fn)
-                cx.learn(br.ops[0], truth)
-                if cx.truth.get(t.id) != (t.d["pred"] == "eq"):
+        def anchor(ii):
+            """truth value of `ii` under which the position is the absolute start (None: not a position test)"""
+            if ii.op != "icmp" or ii.d["pred"] not in ("eq", "ne"):
+                return None
+            for a, b in ((ii.ops[0], ii.ops[1]), (ii.ops[1], ii.ops[0])):
+                if b[0] != "c":
                     continue
-                edges += 1
-                # also accept facts that dominate the branch
-                dx = paths.dom_ctx(fn, br)
-                tr = dict(dx.truth); tr.update(cx.truth)
-                if not any(is_offset_zero(fn.insts[iid]) is not None and tv == is_offset_zero(fn.insts[iid]) for iid, tv in tr.items()):
-                    anchored = False
-        if edges == 0:
-            rep.unknown(rid, "no branch edge establishes the BOM comparison at %s" % t.loc)
-            continue
-        rep.require(rid, anchored, t.loc, fn.name, "bom-not-anchored-at-offset-0:%#x" % t.ops[1][1],
-                    "the UTF-16 decoder treats %#x as a byte-order mark without requiring the region offset to be 0: a U+FEFF that happens to start a region is "
-                    "dropped (or the data rejected), so the result depends on how the input is fragmented" % t.ops[1][1], sample={"test": t.loc, "edges": edges})
+                if zero_only:
+                    if b[1] == 0 and is_offset(a):
+                        return ii.d["pred"] == "eq"
+                else:
+                    lf = linform(fn, a)
+                    if any(isinstance(k_, tuple) and is_offset(k_) and c == 1 for k_, c in lf.items()):
+                        return ii.d["pred"] == "eq"
+            return None
+        brs = [i for i in fn.all_insts() if i.op == "br" and len(i.d.get("succs", [])) == 2]
+        for t in boms:
+            edges = 0
+            anchored = True
+            for br in brs:
+                for truth in (True, False):
+                    cx = paths.PathCtx(fn)
+                    cx.learn(br.ops[0], truth)
+                    if cx.truth.get(t.id) != (t.d["pred"] == "eq"):
+                        continue
+                    edges += 1
+                    # also accept facts that dominate the branch
+                    dx = paths.dom_ctx(fn, br)
+                    tr = dict(dx.truth); tr.update(cx.truth)
+                    if not any(anchor(fn.insts[iid]) is not None and tv == anchor(fn.insts[iid]) for iid, tv in tr.items()):
+                        anchored = False
+            if edges == 0:
+                rep.unknown(rid, "no branch edge establishes the BOM comparison at %s" % t.loc)
+                continue
+            rep.require(rid, anchored, t.loc, fn.name, "bom-not-anchored-at-offset-0:%#x" % t.ops[1][1],
+                        "%s treats %#x as a byte-order mark without tying the decision to the absolute position in the data (region offset): a U+FEFF that merely sits at "
+                        "that position within a region is dropped (or the data rejected), so the result depends on how the input is fragmented" % (fn.name, t.ops[1][1]),
+                        sample={"test": t.loc, "edges": edges, "fn": fn.name})
+
+
+def _is_const_select(fn, op):
+    i = fn.inst(op)
+    return i is not None and i.op == "select" and all(o[0] == "c" for o in i.ops[1:])
 
 
 def _strip_int(fn, op):
@@ -414,6 +454,58 @@ def rule_FR8(rep, prog):
                         "result depends on how the data is fragmented" % fn.name, sample={"fn": fn.name, "map": m.loc, "offset": str({str(k_): v for k_, v in lf.items()})})
     if n < 2:
         rep.unknown(rid, "fewer than 2 read-ahead mappings found in skip-carrying transforms (%d)" % n)
+
+
+def rule_FR15(rep, prog):
+    rid = rep.rule("C20-FR15", "fragmentation independence of read-ahead, size side: once the bytes the previous region already consumed are skipped (buffer pointer advanced, "
+                   "size reduced), nothing computed from the ORIGINAL region size (element count, loop bound, oddness) is used any more - every later use goes through "
+                   "the values merged after the skip was applied", floor=2)
+    n = 0
+    for fn in prog.all_functions():
+        if not fn.name.startswith("___dispatch_transform_") or len(fn.params) < 5:
+            continue
+        adv = [g for g in fn.all_insts() if g.op == "getelementptr" and root_ptr(fn, g.ops[0]) == ("a", 3) and len(g.ops) == 2 and g.ops[1][0] == "i"
+               and fn.inst(g.ops[1]) is not None and fn.inst(g.ops[1]).op == "load"]
+        if not adv or not calls_named(fn, "_dispatch_data_subrange_map"):
+            continue
+        B = adv[0].block
+        succs = B.term.d.get("succs", [])
+        if len(succs) != 1:
+            rep.unknown(rid, "%s: the block applying the skip does not fall through to a single merge block" % fn.name)
+            continue
+        M = succs[0]
+        # the size is reduced in B
+        if not any(i.op == "sub" and tuple(i.ops[0][:2]) == ("a", 4) for i in B.insts):
+            rep.unknown(rid, "%s: size -= skip not found where the buffer pointer is advanced" % fn.name)
+            continue
+        rep.saw(fn)
+        n += 1
+        ARITH = ("add", "sub", "mul", "udiv", "sdiv", "urem", "srem", "lshr", "ashr", "shl", "and", "or", "zext", "sext", "trunc")
+        D = {("a", 4)}
+        changed = True
+        while changed:
+            changed = False
+            for i in fn.all_insts():
+                if ("i", i.id) in D or i.op not in ARITH or i.block.id == M or not fn.block_dominates(i.block.id, M) or i.block.id == B.id:
+                    continue
+                if any(tuple(o[:2]) in D for o in i.ops) and all(o[0] == "c" or tuple(o[:2]) in D for o in i.ops):
+                    D.add(("i", i.id)); changed = True
+        stale = []
+        for u in fn.all_insts():
+            if not fn.block_dominates(M, u.block.id):
+                continue
+            if u.op == "phi" and u.block.id == M:
+                continue
+            ops = [v for v, frm in u.ops] if u.op == "phi" else u.ops
+            if any(tuple(o[:2]) in D for o in ops if isinstance(o, (list, tuple)) and len(o) >= 2 and isinstance(o[0], str)):
+                stale.append(u)
+        rep.require(rid, not stale, (stale[0].loc if stale else B.insts[0].loc), fn.name, "stale-size-after-skip:%s" % fn.name,
+                    "%s still uses a value computed from the original region size after the read-ahead bytes were skipped (size -= skip): the element count / loop bound "
+                    "covers `skip` bytes more than the region holds, so the decoder reads past the region (or emits extra units) whenever the previous region ended "
+                    "inside a character - the result depends on how the data is fragmented" % fn.name,
+                    sample={"fn": fn.name, "merge": M, "stale": [x.loc for x in stale[:4]]})
+    if n < 2:
+        rep.unknown(rid, "fewer than 2 skip-carrying transform blocks analysed (%d)" % n)
 
 
 def rule_BD8(rep, prog):
@@ -755,6 +847,8 @@ def run(rep, tier="quick", srcdir=None, only=None):
         rule_OD13(rep, prog)
     if want("C20-FR14"):
         rule_FR14(rep, prog)
+    if want("C20-FR15"):
+        rule_FR15(rep, prog)
     if want("C13-AI10") or want("C13-OD5") or want("C13-AI6"):
         # the transforms see their input only as the regions dispatch_data_apply hands them and read ahead through create_subrange / create_map: "independent
         # of fragmentation" and "never reads outside the input" rest on the record walks of data.c tiling the byte string exactly (shared with C13)
